@@ -212,6 +212,11 @@ ProducibleShape(t) ==
 \* print -> parse -> print (C11)
 JudgeRoundtrip(e, pre) ==
   IF Crashed(e) THEN Verdict("crash", "roundtrip", "C11", <<>>, e.post.msg)
+  \* a tree nested deeper than an event can carry (built by the harness; t2 holds the number of re-parsed items only)
+  ELSE IF "deep" \in DOMAIN e.act
+  THEN LET x == e.ret  want == PrintItem(DeepItem(e.act.deep, 7)) IN
+       IF x.p1 = want /\ x.p2 = want /\ x.t2 = <<IInt(1)>> /\ x.untouched THEN Blank("ok", "roundtrip")
+       ELSE Verdict("mismatch", "roundtrip", "C11", <<"p1">>, "a deeply nested tree is not printed in full or does not come back from its printed form")
   ELSE IF pre.exec = <<>> \/ ~(Producible(pre.exec[1]) \/ ("src" \in DOMAIN e.act /\ ProducibleShape(pre.exec[1]))) THEN Blank("ok", "roundtrip:skipped")
   ELSE LET t == pre.exec[1]  x == e.ret IN
        IF ~(Len(x.t2) = 1 /\ SkeletonEq(t, x.t2[1]) /\ x.untouched)
